@@ -45,6 +45,7 @@ def check(ctx, report):
     from .c11 import flags_and_timestamps
     report.rule('C05.R10', 'timestamps and flag sets: the value read composes to the bytes it was read from, over the tabulated widths')
     flags_and_timestamps(ctx, report, R4='C05.R10', R5='C05.R10')
+    text_dates(ctx, report)
     from .c18 import name_value_composers
     name_value_composers(ctx, report, rule='C05.R5')
     from .c08 import txt_chunks
@@ -548,3 +549,204 @@ def url_projection(ctx, report):
                 report.add('C05.R6', '%s@url-parts[%s]' % (f.construct, ast.unparse(br.test)[:40]),
                            'the URL is rebuilt from %s only: its %s is dropped, the composed value parses to a different URL' % (
                                sorted(attrs), ' and '.join(missing)))
+
+
+# ---- R11: dates written as text -------------------------------------------------------------------------------------------
+
+def text_dates(ctx, report, RULE='C05.R11'):
+    """ParserText.parse_date_time and every function that prints a date with a literal zone designator, evaluated from their
+    own statements (sa.miniexec) over a table of date texts and a model of what dateutil.parser.parse returns for them
+    (naive without a zone or with a zone name it does not know, aware otherwise, microseconds kept, OverflowError from
+    astimezone at the ends of the calendar): every accepted text must compose, the composed text must be read back as an
+    equal value (Python's datetime equality: a naive value never equals an aware one) and compose to the same text again."""
+    import datetime as _dt
+    import re
+    from ..miniexec import Evaluator, Native, Obj, Raised, Unsupported, class_call_hook, exception_values
+    model = ctx.model
+    report.rule(RULE, 'dates in text form: every accepted spelling is written back as a text that reads as the same value (zone-less, '
+                      'offset, fractional and end-of-calendar dates tabulated over a model of dateutil)')
+    pt = model.try_cls('ParserText')
+    pf = pt.methods.get('parse_date_time') if pt is not None else None
+    if pf is None:
+        report.error(RULE + ': ParserText.parse_date_time vanished')
+        return
+    report.touch(pf)
+    UTC = Obj(name='UTC')
+    EPOCH = _dt.datetime(1970, 1, 1)
+    LO = int((_dt.datetime(1, 1, 1) - EPOCH).total_seconds())
+    HI = int((_dt.datetime(9999, 12, 31, 23, 59, 59) - EPOCH).total_seconds())
+    LOCAL = 5 * 3600       # the zone of the machine, for code that asks for it: any non-zero value shows the dependence
+
+    class Moment(Native):
+        """a datetime: wall clock seconds since 1970-01-01 00:00 of its own zone, microseconds, offset to UTC (None: naive)"""
+
+        def __init__(self, wall, micro=0, offset=None):
+            if not LO <= wall <= HI:
+                raise OverflowError('date value out of range')
+            self.wall, self.microsecond, self.offset = wall, micro, offset
+            self.tzinfo = None if offset is None else UTC if offset == 0 else Obj(name='UTC%+d' % offset)
+
+        def astimezone(self, tz=None):
+            if tz is not UTC:
+                raise Unsupported('astimezone to something else than UTC')
+            off = LOCAL if self.offset is None else self.offset
+            return Moment(self.wall - off, self.microsecond, 0)
+
+        def replace(self, **kw):
+            wall, micro, off = self.wall, self.microsecond, self.offset
+            for k, v in kw.items():
+                if k == 'tzinfo':
+                    if v is None:
+                        off = None
+                    elif v is UTC:
+                        off = 0
+                    else:
+                        raise Unsupported('replace(tzinfo=%r)' % (v,))
+                elif k == 'microsecond':
+                    micro = v
+                else:
+                    raise Unsupported('replace(%s=...)' % k)
+            return Moment(wall, micro, off)
+
+        def utcoffset(self):
+            return None if self.offset is None else Obj(seconds=self.offset)
+
+        def strftime(self, fmt):
+            return (EPOCH + _dt.timedelta(seconds=self.wall, microseconds=self.microsecond)).strftime(fmt)
+
+        def same(self, other):
+            if (self.offset is None) != (other.offset is None):
+                return False
+            a = self.wall - (self.offset or 0), self.microsecond
+            return a == (other.wall - (other.offset or 0), other.microsecond)
+
+        def __repr__(self):
+            return '%s%s' % ((EPOCH + _dt.timedelta(seconds=self.wall, microseconds=self.microsecond)).isoformat(),
+                             ' naive' if self.offset is None else ' UTC%+d' % self.offset if self.offset else ' UTC')
+    GRAMMAR = re.compile(r'(?:[A-Za-z]{3}, )?(\d{1,2}) ([A-Za-z]{3}) (\d{4}) (\d\d):(\d\d):(\d\d)(\.\d+)?(?: (GMT|UTC|Z|[+-]\d{4}|[A-Za-z]{2,5}))?$')
+    MONTHS = ['Jan', 'Feb', 'Mar', 'Apr', 'May', 'Jun', 'Jul', 'Aug', 'Sep', 'Oct', 'Nov', 'Dec']
+
+    def library_parse(text):
+        """what dateutil.parser.parse gives for the spellings of the table (ParserError is a ValueError)"""
+        m = GRAMMAR.match(text)
+        if m is None or m.group(2) not in MONTHS:
+            raise ValueError('Unknown string format: %s' % text)
+        wall = int((_dt.datetime(int(m.group(3)), MONTHS.index(m.group(2)) + 1, int(m.group(1)), int(m.group(4)), int(m.group(5)), int(m.group(6))) - EPOCH).total_seconds())
+        micro = int(round(float(m.group(7)) * 1000000)) if m.group(7) else 0
+        z = m.group(8)
+        if z in ('GMT', 'UTC', 'Z'):
+            off = 0
+        elif z and z[0] in '+-':
+            off = (1 if z[0] == '+' else -1) * (int(z[1:3]) * 3600 + int(z[3:5]) * 60)
+        else:
+            off = None          # no zone, or a zone name the library does not know (it warns and returns a naive value)
+        return Moment(wall, micro, off)
+    exc = exception_values('InvalidValue')
+
+    def hook(n, ev):
+        d = ast.unparse(n.func)
+        if d == 'dateutil.parser.parse':
+            return library_parse(ev.ev(n.args[0]))
+        return exc(n, ev)
+
+    def names(name):
+        if name in ('dateutil.tz.UTC', 'datetime.timezone.utc'):
+            return UTC
+        if name == 'type':
+            return type
+        raise Unsupported('free name ' + name)
+
+    class State(Native):
+        def __init__(self, data):
+            self._parsable, self._parsed_length, self._parsed_values, self._encoding = data, 0, {}, 'ascii'
+    phook = class_call_hook(pt, hook, model)
+    pnames = phook.name_hook_for(pt.module, names)
+
+    def parse(text):
+        me = State(text.encode('ascii'))
+        Evaluator({'self': me, 'name': 'value'}, phook, pnames).function(pf.node)
+        return me._parsed_values.get('value')
+    # the functions that print a date with a literal zone designator: (function, how to call it on a value)
+    printers = []
+    for f in model.functions():
+        for n in ast.walk(f.node):
+            if isinstance(n, ast.Call) and isinstance(n.func, ast.Attribute) and n.func.attr == 'compose_date_time' and len(n.args) >= 2 \
+                    and isinstance(n.args[1], ast.Constant) and isinstance(n.args[1].value, str) and f.cls is not None and f.cls.name != 'ComposerText':
+                printers.append((f, 'primitive', n.args[1].value))
+            elif isinstance(n, ast.Call) and isinstance(n.func, ast.Attribute) and n.func.attr == 'strftime' and n.args and isinstance(n.args[0], ast.Constant) \
+                    and isinstance(n.args[0].value, str) and any(z in n.args[0].value for z in ZONE_LITERALS) and f.cls is not None \
+                    and f.name != 'compose_date_time' and len(f.node.args.args) == 1:
+                printers.append((f, 'method', n.args[0].value))
+    ct = model.try_cls('ComposerText')
+    cf = ct.methods.get('compose_date_time') if ct is not None else None
+
+    class Out(Native):
+        def __init__(self):
+            self.text = []
+
+        def compose_string(self, value):
+            self.text.append(value)
+
+    def printed(printer, value):
+        f, kind, fmt = printer
+        if kind == 'primitive':
+            if cf is None:
+                raise Unsupported('ComposerText.compose_date_time vanished')
+            chook = class_call_hook(ct, hook, model)
+            me = Out()
+            Evaluator({'self': me, 'value': value, 'fmt': fmt}, chook, chook.name_hook_for(ct.module, names)).function(cf.node)
+            return ''.join(me.text)
+        fh = class_call_hook(f.cls, hook, model)
+        return Evaluator({'self': Obj(value=value)}, fh, fh.name_hook_for(f.module, names)).function(f.node)
+    TEXTS = [
+        ('plain', 'Wed, 21 Oct 2015 07:28:00 GMT'),
+        ('offset', 'Wed, 21 Oct 2015 07:28:00 +0200'),
+        ('offset', 'Wed, 21 Oct 2015 07:28:00 -0930'),
+        ('zone-less', 'Wed, 21 Oct 2015 07:28:00'),
+        ('zone-less', '21 Oct 2015 07:28:00 CEST'),
+        ('fraction', 'Wed, 21 Oct 2015 07:28:00.5 GMT'),
+        ('end-of-calendar', 'Fri, 31 Dec 9999 23:59:59 -0100'),
+        ('plain', 'Fri, 31 Dec 9999 23:59:59 GMT'),
+        ('plain', 'Thu, 01 Jan 1970 00:00:00 GMT'),
+        ('offset', 'Thu, 01 Jan 1970 00:30:00 +0100'),
+    ]
+    if not printers:
+        report.error(RULE + ': no function prints a date with a literal zone designator any more')
+        return
+    problems = {}
+    try:
+        for printer in printers:
+            report.touch(printer[0])
+            for kind, text in TEXTS:
+                report.count(RULE)
+                try:
+                    o1 = parse(text)
+                except Raised as e:
+                    if kind == 'plain':
+                        problems.setdefault((printer[0].construct, kind), '%r is refused (%s)' % (text, e.what[:60]))
+                    continue
+                if not isinstance(o1, Moment):
+                    raise Unsupported('parse_date_time stores %r' % (o1,))
+                try:
+                    c1 = printed(printer, o1)
+                except Raised as e:
+                    problems.setdefault((printer[0].construct, kind), '%r is accepted (as %r) and cannot be written: %s' % (text, o1, e.what[:80]))
+                    continue
+                if not isinstance(c1, str):
+                    raise Unsupported('%s gives %r' % (printer[0].qualname, c1))
+                try:
+                    o2 = parse(c1)
+                    c2 = printed(printer, o2)
+                except Raised as e:
+                    problems.setdefault((printer[0].construct, kind), '%r is written as %r, which is not accepted again (%s)' % (text, c1, e.what[:60]))
+                    continue
+                if not o1.same(o2):
+                    problems.setdefault((printer[0].construct, kind), '%r is read as %r and written as %r, which reads as %r: not the same value' % (text, o1, c1, o2))
+                elif c2 != c1:
+                    problems.setdefault((printer[0].construct, kind), '%r is written as %r and then as %r' % (text, c1, c2))
+    except Unsupported as e:
+        report.add(RULE, pf.construct + '@tabulation', 'the date functions left the subset the tabulation understands: %s' % e)
+        return
+    for (cons, kind), v in sorted(problems.items()):
+        report.add(RULE, '%s@date[%s]' % (cons, kind), v)
+    report.floor(RULE, 20, 'date texts x printing functions')
